@@ -211,7 +211,9 @@ func runTwinWorld(t *testing.T, p *Plan, transform bool, tape []uint32, replay b
 				}
 				op.Data = d
 			}
+			op.Settle = true // one message at a time: a TCP message is written at once, not pipelined with the next
 			st.inject(&op)
+			st.flushBatches()
 			if !w.K.Settle(10 * time.Second) {
 				return
 			}
